@@ -211,8 +211,38 @@ class _Iter:
         self.log.append("close")
 
 
+class _Container:
+    """A response object in the style of web frameworks: iterating it hands out a fresh iterator over its
+    content, close() belongs to the container itself."""
+
+    def __init__(self, chunks, log, fail_at=None, gen=False) -> None:
+        self.chunks = list(chunks)
+        self.log = log
+        self.fail_at = fail_at
+        self.gen = gen
+
+    def __iter__(self):
+        if self.gen:
+            return self._gen()
+        if self.fail_at is None:
+            return iter(self.chunks)
+        return _Iter(self.chunks, [], self.fail_at)
+
+    def _gen(self):
+        for i, c in enumerate(self.chunks):
+            if self.fail_at is not None and i == self.fail_at:
+                raise ValueError("app failure while iterating")
+            yield c
+        if self.fail_at is not None and self.fail_at >= len(self.chunks):
+            raise ValueError("app failure while iterating")
+
+    def close(self) -> None:
+        self.log.append("close")
+
+
 _SHAPES = ["list", "generator", "lazy generator", "iterator+close", "raise before start", "raise after start", "no start_response",
-           "iterator fails mid-way", "lazy iterator+close", "empty list", "lazy, no chunks"]
+           "iterator fails mid-way", "lazy iterator+close", "empty list", "lazy, no chunks", "container+close", "container with a generator __iter__ + close",
+           "container+close fails mid-way"]
 
 
 def _make_app(shape: int, chunks, log):
@@ -259,6 +289,15 @@ def _make_app(shape: int, chunks, log):
                     return _Iter.__next__(self2)
 
             return Lazy(chunks, log)
+        if name == "container+close":
+            start_response("201 Created", [("X-A", "1")])
+            return _Container(chunks, log)
+        if name == "container with a generator __iter__ + close":
+            start_response("201 Created", [("X-A", "1")])
+            return _Container(chunks, log, gen=True)
+        if name == "container+close fails mid-way":
+            start_response("201 Created", [("X-A", "1")])
+            return _Container(chunks, log, fail_at=1 if len(chunks) > 1 else 0, gen=True)
         if name == "empty list":
             start_response("204 No Content", [])
             return []
@@ -279,7 +318,7 @@ def _make_app(shape: int, chunks, log):
     split={"shape": "each"},
     witnesses=[{"shape": 0, "k": 2, "e0": False, "e1": True, "e2": False}, {"shape": 3, "k": 1, "e0": False, "e1": False, "e2": False}],
     budget=60,
-    bounds="11 WSGI application shapes x 0..3 body chunks each empty or not",
+    bounds="14 WSGI application shapes (lists, generators, self-iterating objects and containers whose __iter__ returns another object, with close(); failing before/after start_response and mid-iteration; lazy start_response) x 0..3 body chunks each empty or not",
     encodes=["hypercorn/app_wrappers.py::WSGIWrapper.run_app"],
     stubs=["`send` handed to run_app is a recorder (stands in for call_soon(send, ...) from the worker thread)"],
 )
@@ -310,7 +349,8 @@ def wsgi_app_shapes(shape: int, k: int, e0: bool, e1: bool, e2: bool) -> bool:
             err = e
     ok = log.count("called") == 1
     closes = log.count("close")
-    has_close = name in ("iterator+close", "no start_response", "iterator fails mid-way", "lazy iterator+close")
+    has_close = name in ("iterator+close", "no start_response", "iterator fails mid-way", "lazy iterator+close", "container+close", "container with a generator __iter__ + close",
+                         "container+close fails mid-way")
     if has_close:
         ok = ok and closes == 1
     status = 204 if name == "empty list" else 201
@@ -321,7 +361,7 @@ def wsgi_app_shapes(shape: int, k: int, e0: bool, e1: bool, e2: bool) -> bool:
         ok = ok and isinstance(err, ValueError) and sent == []
     elif name == "no start_response":
         ok = ok and isinstance(err, RuntimeError) and sent == []
-    elif name == "iterator fails mid-way":
+    elif name in ("iterator fails mid-way", "container+close fails mid-way"):
         n_ok = 1 if len(chunks) > 1 else 0
         ok = ok and isinstance(err, ValueError)
         if n_ok == 0:  # failed before the first chunk: nothing, or just the head, may have been sent
